@@ -123,6 +123,8 @@ Section ExprInd.
   Hypothesis Hobj : forall f pid x, P x -> P (EObj f pid x).
   Hypothesis Hmenu : forall pid it mn, P it -> P mn -> P (EMenu pid it mn).
   Hypothesis Hthe : forall k i, P (EThe k i).
+  Hypothesis Hthen : forall n, P (ETheN n).
+  Hypothesis Hacc : forall n x, P x -> P (EAcc n x).
   Hypothesis Hnil : Q [].
   Hypothesis Hcons : forall x l, P x -> Q l -> Q (x :: l).
   Fixpoint expr_ind2 (e : expr) : P e :=
@@ -137,6 +139,8 @@ Section ExprInd.
     | EObj f pid x => Hobj f pid x (expr_ind2 x)
     | EMenu pid it mn => Hmenu pid it mn (expr_ind2 it) (expr_ind2 mn)
     | EThe k i => Hthe k i
+    | ETheN n => Hthen n
+    | EAcc n x => Hacc n x (expr_ind2 x)
     end.
 End ExprInd.
 
@@ -740,6 +744,36 @@ Proof.
   exists r1. cbn [Nat.add]. erewrite run_ops_step; [| subst a1; lia | exact Hs]. f_equal. subst a1. lia.
 Qed.
 
+(* ---- properties addressed by name ---- *)
+Lemma exec_then en n : wf_e en (ETheN n) -> exec_spec en (ETheN n).
+Proof.
+  intros [Hn H256] d off len a fuel r m Hag Hc Hoff Hlen.
+  rewrite after_e_leaf by reflexivity. cbn [compile_e reify_e] in *. rewrite !zlen_cons, zlen_nil in *.
+  destruct Hag as (Hnm & _).
+  assert (Hs : exists r', step d a r m = Ok (a + 2, r', push m (the_name_node (nm en n) a))).
+  { eapply step_2 with (proc := "LoadPropertyOpcode") (attr := "") (oc := OLoadProperty); [exact Hc | reflexivity | reflexivity |].
+    intros p2. cbn [process]. rewrite u8_b by lia. rewrite Hnm, nth_name_ok by exact Hn. cbn [bind].
+    fold (nm en n). unfold the_name_node, local_of. destruct (assoc_str (nm en n) ASSIGN_KNOWN_PROPERTIES); reflexivity. }
+  destruct Hs as [r' Hs]. exists r'. one_step Hs. f_equal; lia.
+Qed.
+
+Lemma exec_acc en n x : exec_spec en x -> wf_e en (EAcc n x) -> exec_spec en (EAcc n x).
+Proof.
+  intros IHx (Hn & H256 & Hx) d off len a fuel r m Hag Hc Hoff Hlen.
+  cbn [compile_e ninstr] in *. rewrite !zlen_app, !zlen_cons, zlen_nil in *.
+  apply code_at_app in Hc. destruct Hc as [Hcx Hco]. pose proof (zlen_nonneg (compile_e x)).
+  replace (ninstr x + 1 + fuel)%nat with (ninstr x + (1 + fuel))%nat by lia.
+  destruct (IHx d off len a (1 + fuel)%nat r m Hag Hcx ltac:(lia) ltac:(lia)) as [r1 E1]. rewrite E1.
+  set (m1 := after_e en a x m). set (a1 := a + zlen (compile_e x)) in *.
+  pose proof (agrees_after_e en a x m Hag) as Hag1. fold m1 in Hag1. destruct Hag1 as (Hnm & _).
+  assert (Hs : exists r', step d a1 r1 m1 = Ok (a1 + 2, r', after_e en a (EAcc n x) m)).
+  { eapply step_2 with (proc := "PropertyAccesorOpcode") (attr := "") (oc := OPropertyAccessor); [exact Hco | reflexivity | reflexivity |].
+    intros p2. cbn [process]. rewrite u8_b by lia. rewrite Hnm, nth_name_ok by exact Hn. cbn [bind].
+    unfold pop. subst m1. rewrite after_e_stack. cbn [bind]. fold (nm en n).
+    destruct m as [st [? ? ? ? ? ? ?] cx]; reflexivity. }
+  destruct Hs as [r2 Hs]. exists r2. cbn [Nat.add]. erewrite run_ops_step; [| subst a1; lia | exact Hs]. f_equal. subst a1. lia.
+Qed.
+
 (* the core of C02: any expression tree, any depth, any width *)
 Theorem exec_e en e : wf_e en e -> exec_spec en e.
 Proof.
@@ -755,6 +789,8 @@ Proof.
   - intros f pid x IHx Hwf. apply exec_obj; [apply IHx; apply Hwf | exact Hwf].
   - intros pid it mn IHi IHm Hwf. apply exec_menu; [apply IHi; apply Hwf | apply IHm; apply Hwf | exact Hwf].
   - intros k i Hwf. apply exec_the. exact Hwf.
+  - intros n Hwf. apply exec_then. exact Hwf.
+  - intros n x IHx Hwf. apply exec_acc; [apply IHx; apply Hwf | exact Hwf].
   - intros _. apply exec_args_nil.
   - intros x l IHx IHl [Hx Hl]. apply exec_args_cons; auto.
 Qed.
